@@ -75,3 +75,29 @@ Proof. cbn. repeat split; try reflexivity; intuition discriminate. Qed.
 
 Print Assumptions c10_enumeration. Print Assumptions c10_coset_well_defined. Print Assumptions c10_choice.
 Print Assumptions c10_node_value. Print Assumptions c10_delta_sem.
+
+(* ---- added: the four candidate cosets (Tensor/FourCosets.v): same syndrome, pairwise inequivalent, exactly one contains
+   a given error relative to `normalizer_spanned` (itself proved from a destabilizer-basis certificate); the rank-nullity
+   counting step stays visible as normalizer_counting_statement ---- *)
+From QV Require Import Core.Span Core.Rank Tensor.FourCosets.
+Theorem c10_four_cosets_syndrome : forall N : nat, Nat.even N = true -> forall (gens : list bsf) (lx lz : bsf), rowlen N gens -> length lx = N -> length lz = N -> (forall g : bsf, In g gens -> bsp lx g = false) -> (forall g : bsf, In g gens -> bsp lz g = false) -> forall (f : bsf) (a b : bool) (g : bsf), length f = N -> In g gens -> bsp (cand N lx lz f a b) g = bsp f g.
+Proof. exact four_cosets_syndrome. Qed.
+Theorem c10_four_cosets_at_most_one : forall N : nat, Nat.even N = true -> forall (gens : list bsf) (lx lz : bsf), rowlen N gens -> length lx = N -> length lz = N -> (forall g : bsf, In g gens -> bsp lx g = false) -> (forall g : bsf, In g gens -> bsp lz g = false) -> bsp lx lz = true -> forall (e f : bsf) (a b : bool), length e = N -> length f = N -> in_spanP N gens (xorv e (cand N lx lz f a b)) -> a = xorb (bsp lz e) (bsp lz f) /\ b = xorb (bsp lx e) (bsp lx f).
+Proof. exact four_cosets_at_most_one. Qed.
+Theorem c10_four_cosets_inequivalent : forall N : nat, Nat.even N = true -> forall (gens : list bsf) (lx lz : bsf), rowlen N gens -> length lx = N -> length lz = N -> (forall g : bsf, In g gens -> bsp lx g = false) -> (forall g : bsf, In g gens -> bsp lz g = false) -> bsp lx lz = true -> forall (f : bsf) (a b a' b' : bool), length f = N -> in_spanP N gens (xorv (cand N lx lz f a b) (cand N lx lz f a' b')) -> a = a' /\ b = b'.
+Proof. exact four_cosets_inequivalent. Qed.
+Theorem c10_four_cosets_exactly_one : forall N : nat, Nat.even N = true -> forall (gens : list bsf) (lx lz : bsf), rowlen N gens -> length lx = N -> length lz = N -> (forall g : bsf, In g gens -> bsp lx g = false) -> (forall g : bsf, In g gens -> bsp lz g = false) -> bsp lx lz = true -> forall e f : bsf, normalizer_spanned N gens lx lz -> length e = N -> length f = N -> (forall g : bsf, In g gens -> bsp e g = bsp f g) -> exists a b : bool, in_spanP N gens (xorv e (cand N lx lz f a b)) /\ (forall a' b' : bool, in_spanP N gens (xorv e (cand N lx lz f a' b')) -> a' = a /\ b' = b).
+Proof. exact four_cosets_exactly_one. Qed.
+Theorem c10_normalizer_spanned_of_basis : forall N : nat, Nat.even N = true -> forall (gens dests : list bsf) (lx lz : bsf), rowlen N gens -> rowlen N dests -> length dests = length gens -> length lx = N -> length lz = N -> (forall g h : bsf, In g gens -> In h gens -> bsp g h = false) -> (forall g : bsf, In g gens -> bsp lx g = false) -> (forall g : bsf, In g gens -> bsp lz g = false) -> (forall i j : nat, i < length gens -> j < length gens -> bsp (nth i dests []) (nth j gens []) = (i =? j)) -> (forall t : bsf, length t = N -> in_spanP N (gens ++ dests ++ [lx; lz]) t) -> normalizer_spanned N gens lx lz.
+Proof. exact normalizer_spanned_of_basis. Qed.
+Theorem c10_four_cosets_of_counting : normalizer_counting_statement -> four_cosets_statement.
+Proof. exact four_cosets_of_counting. Qed.
+Theorem c10_candidates : forall (N : nat) (lx lz : bsf), length lx = N -> length lz = N -> forall f : bsf, length f = N -> [cand N lx lz f false false; cand N lx lz f true false; cand N lx lz f true true; cand N lx lz f false true] = [f; xorv f lx; xorv (xorv f lx) lz; xorv f lz].
+Proof. exact cand_list. Qed.
+Print Assumptions c10_four_cosets_syndrome.
+Print Assumptions c10_four_cosets_at_most_one.
+Print Assumptions c10_four_cosets_inequivalent.
+Print Assumptions c10_four_cosets_exactly_one.
+Print Assumptions c10_normalizer_spanned_of_basis.
+Print Assumptions c10_four_cosets_of_counting.
+Print Assumptions c10_candidates.
